@@ -87,6 +87,32 @@ CLAIMED = {
         technique="SQL macro -> SMT (sqlglot AST, 3VL, char-vector strings, closed-form calendar) per-path VCs "
                   "discharged by z3/cvc5; model conformance against real DuckDB; replay in real DuckDB",
         design_ref="§2 C08"),
+    **{pid: dict(
+        level="exploration",
+        text=f"BOUNDED stand-in (not a proof) for {what}: the program family is enumerated (exhaustively per operator "
+             "class at depth 1, sampled at depth 2-3) over fixed small tables with nulls, zeros, negatives, partial key "
+             "overlap and empty datasets, executed on the real engine and the real DuckDB through API.run with only the "
+             "text->AST prologue removed mechanically, and every result is compared as a keyed set of datapoints with an "
+             "independent reference semantics (spec/vtlref.py). The transpiler visitors build SQL strings over an open "
+             "AST and are outside the reach of the VC generators; the scalar templates they use are candidates for the "
+             "deductive tier (not built for this property yet).",
+        note="Nothing is proved beyond the enumerated programs and tables. The reference is my reading of VTL 2.1 and "
+             "omits every case I am not sure of (null/0, count() without operand, count of all-null groups, aggregates "
+             "of empty ungrouped datasets, mod, round, string ordering); programs the engine's semantic analysis rejects "
+             "are not counted. ASTs are hand-built (shapes per spec/ast_shapes.md), the parser is not exercised.",
+        technique="postcondition 'result = VTL denotation' checked by bounded enumeration of programs on the real engine "
+                  "(bounded stand-in)",
+        design_ref=f"§2 {pid}") for pid, what in {
+            "C01": "element-wise operators (arithmetic, comparison, boolean 3VL, string, in/between/isnull/nvl, "
+                   "dataset if-then-else, division by zero)",
+            "C02": "clause chains (filter, calc, keep, drop, rename, sub) of length 1-3 (thorough 4), also on join results",
+            "C03": "aggregations (sum avg count min max; group by / group except / none; having; aggr clause; Number, "
+                   "String and Time_Period measures incl. W53 / D366 boundaries)",
+            "C04": "joins (inner / left / full, using, aliases, bodies; 2 and 3 operands in every order with nested "
+                   "identifier sets)",
+            "C05": "set operators (union / intersect with 2-4 operands in every order, setdiff, symdiff) with conflicting "
+                   "and null measures",
+        }.items()},
     "C32": dict(
         level="proof",
         text="Exception-flow contracts on the real source: the two DuckDB error mappers are executed symbolically over "
